@@ -329,6 +329,33 @@ func runC06(ctx *Ctx) {
 		}
 		cr.run(ctx)
 	}
+	if ctx.Replay == "" {
+		// one Options value (and so one page URL object) reused for a series of pages, with
+		// pagination switched on and both algorithms: every page must be resolved against the page
+		// URL the caller supplied, not against whatever an earlier call left behind
+		for _, us := range []string{"http://example.com/dir/sub/", "https://sub.example.org/a/b/c/?x=1", "http://example.com/dir/page.html"} {
+			for algo := 0; algo < 2; algo++ {
+				shared, _ := nurl.Parse(us)
+				opts := &distiller.Options{OriginalURL: shared, PaginationAlgo: distiller.PaginationAlgo(algo)}
+				for i := 0; i < ctx.pick(6, 200); i++ {
+					r := newRng(ctx.Seed, fmt.Sprintf("C06/reuse/%s/%d/%d", us, algo, i))
+					g := newPageGen(r)
+					g.RelURLs = true
+					src := "<html><head><title>t</title></head><body>" + g.blocks(r.Range(3, 8), 0) + simplePager(r, strings.TrimSuffix(us, "/"), 4, 2) + "</body></html>"
+					d := parseDoc(src)
+					res, err := distiller.Apply(d.Root, opts)
+					ctx.Rep.Evaluations++
+					if err != nil {
+						continue
+					}
+					fresh, _ := nurl.Parse(us)
+					x := &distilled{D: d, Src: src, Res: res, URL: fresh, Root: d.elementRoot()}
+					oracleC06(ctx.Rep, x, map[string]interface{}{"html": src, "url": us, "algo": algo, "call": i + 1, "note": "the same Options value is reused for every call of the series"})
+					ctx.Rep.hist("reused-options-calls")
+				}
+			}
+		}
+	}
 }
 
 func runC07(ctx *Ctx) {
@@ -346,7 +373,7 @@ func runC07(ctx *Ctx) {
 			addRenderCases(tr, do, ctx.Rep, x.Src, pageURL, replay, 6)
 			addOutputNodesCase(on, x.Src, replay)
 		},
-		weights: []W{{"para", 25}, {"shortpara", 8}, {"list", 25}, {"quote", 15}, {"pre", 6}, {"datatable", 6}, {"img", 4}, {"figure", 3}, {"links", 6}, {"divwrap", 6}, {"embed", 3}, {"heading", 3}},
+		weights: []W{{"para", 25}, {"shortpara", 8}, {"list", 25}, {"quote", 15}, {"pre", 6}, {"datatable", 6}, {"img", 4}, {"figure", 3}, {"links", 6}, {"divwrap", 6}, {"embed", 3}, {"heading", 3}, {"oddtext", 8}},
 		oracle: func(ctx *Ctx, x *distilled, replay interface{}) bool {
 			deep, partial := oracleC07(ctx.Rep, x, replay)
 			ctx.Rep.histN("retained-words-depth>=2", deep)
